@@ -35,3 +35,44 @@ Proof.
   rewrite (find_pred_ext _ (fun _ => true)) by (intros e; reflexivity).
   rewrite find_always, IH. destruct (r_entries r); reflexivity.
 Qed.
+
+(* ---- find_existing_hash_formats_for_path: append-if-absent over all entries of all generations = first occurrences ---- *)
+Lemma dedup_by_seen_ext {A} (eqb : A -> A -> bool) : forall l s1 s2,
+  (forall y, existsb (eqb y) s1 = existsb (eqb y) s2) -> dedup_by eqb s1 l = dedup_by eqb s2 l.
+Proof.
+  induction l as [|x l IH]; intros s1 s2 H; cbn [dedup_by]; [reflexivity|].
+  rewrite (H x). destruct (existsb (eqb x) s2); [apply IH; exact H|].
+  f_equal. apply IH. intros y. cbn [existsb]. rewrite H. reflexivity.
+Qed.
+
+Definition append_if_absent (acc : list fmt) (x : fmt) : list fmt := if negb (memf x acc) then acc ++ [x] else acc.
+
+Lemma append_if_absent_fold : forall l acc, fold_left append_if_absent l acc = acc ++ dedup_by fmt_eqb acc l.
+Proof.
+  induction l as [|x l IH]; intros acc; cbn [fold_left dedup_by]; [rewrite app_nil_r; reflexivity|].
+  unfold append_if_absent at 2. unfold memf. destruct (existsb (fmt_eqb x) acc) eqn:E; cbn [negb].
+  - apply IH.
+  - rewrite IH, <- app_assoc. cbn [app]. do 2 f_equal. apply dedup_by_seen_ext.
+    intros y. rewrite existsb_app. cbn [existsb]. rewrite orb_false_r. apply orb_comm.
+Qed.
+
+Lemma fold_left_map_in {A B C} (f : A -> B -> A) (g : C -> B) : forall l a, fold_left (fun a c => f a (g c)) l a = fold_left f (map g l) a.
+Proof. induction l as [|c l IH]; intros a; cbn [fold_left map]; [reflexivity|apply IH]. Qed.
+
+Theorem src_existing_formats_is_model gens p : src_existing_formats gens p = existing_formats gens p.
+Proof.
+  unfold src_existing_formats, existing_formats, dedup_fmts.
+  assert (H : forall gs acc,
+    fold_left (fun hash_formats hash_list =>
+      match find_media_hash hash_list p with
+      | None => hash_formats
+      | Some media_hash => fold_left (fun hash_formats hash_entry =>
+          if negb (memf (e_fmt hash_entry) hash_formats) then hash_formats ++ [e_fmt hash_entry] else hash_formats) (r_entries media_hash) hash_formats
+      end) gs acc
+    = fold_left append_if_absent (flat_map (fun g => match find_media_hash g p with Some r => map e_fmt (r_entries r) | None => [] end) gs) acc).
+  { induction gs as [|g gs IH]; intros acc; cbn [fold_left flat_map]; [reflexivity|].
+    rewrite fold_left_app, IH. f_equal.
+    destruct (find_media_hash g p) as [r|]; [|reflexivity].
+    rewrite <- (fold_left_map_in append_if_absent e_fmt). reflexivity. }
+  rewrite H, append_if_absent_fold. reflexivity.
+Qed.
